@@ -3,11 +3,11 @@ package main
 // Evaluation of specification expressions against a symbolic state.
 
 import (
-	"os"
 	"fmt"
 	"go/token"
 	"go/types"
 	"math/big"
+	"os"
 	"sort"
 	"strings"
 
@@ -17,20 +17,20 @@ import (
 var tokLSS = token.LSS
 
 type Scope struct {
-	c     *Ctx
-	fr    *Frame
-	st    *State
-	old   *State
-	vars  map[string]*Val
-	at    *ssa.BasicBlock // program point for resolving local names
-	loop  *Loop
-	pkg   *ssa.Package
-	depth int
+	c          *Ctx
+	fr         *Frame
+	st         *State
+	old        *State
+	vars       map[string]*Val
+	at         *ssa.BasicBlock // program point for resolving local names
+	loop       *Loop
+	pkg        *ssa.Package
+	depth      int
 	freshBound int
-	atInstr ssa.Instruction // the site (within block `at`) a site obligation is attached to: later assignments are not visible
-	anyLoop bool // names may denote the loop variables of any loop whose iteration is in progress
-	skolem int  // 0: quantifiers kept; 1: the formula is a proof goal; 2: the formula is an assumption
-	neg    bool // the current subformula has negative polarity in the top formula
+	atInstr    ssa.Instruction // the site (within block `at`) a site obligation is attached to: later assignments are not visible
+	anyLoop    bool            // names may denote the loop variables of any loop whose iteration is in progress
+	skolem     int             // 0: quantifiers kept; 1: the formula is a proof goal; 2: the formula is an assumption
+	neg        bool            // the current subformula has negative polarity in the top formula
 }
 
 // asGoal / asAssumption enable skolemisation: a universal quantifier in a positive position of a
